@@ -120,6 +120,7 @@ theorem nfInv_setBefore {e : Expr} (h : e.nfInv) {b : List Trivia} (hb : Alt b) 
   | wth => exact h.elim
   | asrt => exact h.elim
   | sel => exact h.elim
+  | selOr => exact h.elim
 
 theorem nfInv_addAfter {e : Expr} (h : e.nfInv) (hc : closedT (e.effAfter false)) {ts : List Trivia} (hts : Alt ts) :
     (e.addAfter ts).nfInv := by
@@ -137,6 +138,7 @@ theorem nfInv_addAfter {e : Expr} (h : e.nfInv) (hc : closedT (e.effAfter false)
   | wth => exact h.elim
   | asrt => exact h.elim
   | sel => exact h.elim
+  | selOr => exact h.elim
 
 theorem closedT_append {a b : List Trivia} (ha : closedT a) (hb : closedT b) : closedT (a ++ b) := by
   rcases hb with h | ⟨c, hc⟩
@@ -592,6 +594,7 @@ theorem cst_nf : (c : Cst) → c.wf = true → c.basic = true → ∀ (e : Expr)
     e.nfInv ∧ e.before = [] ∧ e.after = [] ∧ e.notBinding = true
   | .kw .., _, hbs, _, _ => by simp [Cst.basic] at hbs
   | .sel .., _, hbs, _, _ => by simp [Cst.basic] at hbs
+  | .selOr .., _, hbs, _, _ => by simp [Cst.basic] at hbs
   | .paren its cg, hwf, hbs, e, hp => by
     simp only [Cst.wf, Bool.and_eq_true, beq_iff_eq] at hwf
     simp only [Cst.parse] at hp
@@ -934,6 +937,7 @@ theorem inlineClean_of_B : (e : Expr) → e.inlineCleanB = true → e.inlineClea
   | .wth .., h => by simp [Expr.inlineCleanB] at h
   | .asrt .., h => by simp [Expr.inlineCleanB] at h
   | .sel .., h => by simp [Expr.inlineCleanB] at h
+  | .selOr .., h => by simp [Expr.inlineCleanB] at h
 theorem allInlineClean_of_B : (es : List Expr) → allInlineCleanB es = true → allInlineClean es
   | [], _ => trivial
   | e :: rest, h => by
